@@ -547,9 +547,9 @@ func ruleErrSlot(c *Ctx, rule string) {
 						continue
 					}
 					var other ssa.Value
-					if bo.X == arg && isNilConst(bo.Y) {
+					if sameLoadIn(f, bo.X, arg) && isNilConst(bo.Y) {
 						other = bo.Y
-					} else if bo.Y == arg && isNilConst(bo.X) {
+					} else if sameLoadIn(f, bo.Y, arg) && isNilConst(bo.X) {
 						other = bo.X
 					}
 					if other == nil {
@@ -710,6 +710,31 @@ func errorSinks(v ssa.Value, setErr *ssa.Function) bool {
 						if u, ok := ar.(*ssa.UnOp); ok && u.Op == token.MUL && walk(u) {
 							return true
 						}
+						// the variable is captured by a closure deferred before the store: what the closure does with it
+						mc, ok := ar.(*ssa.MakeClosure)
+						if !ok {
+							continue
+						}
+						deferred := false
+						for _, mr := range *mc.Referrers() {
+							if d, ok := mr.(*ssa.Defer); ok && d.Call.Value == ssa.Value(mc) && (d.Block().Dominates(r.Block())) {
+								deferred = true
+							}
+						}
+						if !deferred {
+							continue
+						}
+						cf := mc.Fn.(*ssa.Function)
+						for i, bv := range mc.Bindings {
+							if bv != ssa.Value(a) || i >= len(cf.FreeVars) {
+								continue
+							}
+							for _, fr := range *cf.FreeVars[i].Referrers() {
+								if u, ok := fr.(*ssa.UnOp); ok && u.Op == token.MUL && walk(u) {
+									return true
+								}
+							}
+						}
 					}
 				}
 			case *ssa.MakeInterface:
@@ -803,4 +828,31 @@ func ruleResidue(c *Ctx, rule string) {
 	} else {
 		c.bad(rule, "morass.(*Morass).CleanUp/removes-dir", cu.Pos(), "CleanUp does not remove the sorter's temporary directory")
 	}
+}
+
+// sameLoadIn: a and b are one value, or two loads of one variable (a captured
+// or spilled local) that f itself never stores to — a deferred closure testing
+// `err != nil` and then passing err reads the variable twice.
+func sameLoadIn(f *ssa.Function, a, b ssa.Value) bool {
+	if a == b {
+		return true
+	}
+	la, ok1 := a.(*ssa.UnOp)
+	lb, ok2 := b.(*ssa.UnOp)
+	if !ok1 || !ok2 || la.Op != token.MUL || lb.Op != token.MUL || la.X != lb.X {
+		return false
+	}
+	switch la.X.(type) {
+	case *ssa.FreeVar, *ssa.Alloc:
+	default:
+		return false
+	}
+	for _, blk := range f.Blocks {
+		for _, ins := range blk.Instrs {
+			if st, ok := ins.(*ssa.Store); ok && st.Addr == la.X {
+				return false
+			}
+		}
+	}
+	return true
 }
